@@ -84,38 +84,204 @@ theorem unmap_err (s : St) (p4 : Word) (parents : List Nat) (li : Nat) (huge : B
   have hm := unmap_mem s p4 parents li huge sz
   rw [h] at hm; exact hm
 
+/-- `unmap` keeps the strict entry invariant "every non-zero entry is present" (it only writes a zero). -/
+theorem unmap_strict (s : St) (p4 : Word) (parents : List Nat) (li : Nat) (huge : Bool) (sz : Nat)
+    (sh : PageShape parents huge sz) (hinv : Inv s.mem p4) (hpi : IdxOK parents) (hst : AllPresent s.mem p4) :
+    AllPresent (unmap s p4 parents li huge sz).2.mem p4 := by
+  have hm := unmap_mem s p4 parents li huge sz
+  cases h : (unmap s p4 parents li huge sz).1 with
+  | error e => rw [h] at hm; rw [hm]; exact hst
+  | ok fr =>
+    rw [h] at hm
+    obtain ⟨t, ht, _, hhuge, _, hmem⟩ := hm
+    obtain ⟨_, hl3⟩ := sh.len_le
+    rw [hmem]
+    apply AllPresent_set s.mem p4 hinv.wf hst parents t li 0#64 ht hl3 hpi _ (Or.inl rfl)
+    cases sh with
+    | s4k a b c => left; rfl
+    | s2m a b =>
+      right
+      have := (hhuge rfl).1
+      unfold tableOf; simp [this]; decide
+    | s1g a =>
+      right
+      have := (hhuge rfl).1
+      unfold tableOf; simp [this]; decide
+
 /-- Leaf flags accepted for a 4 KiB page: contain `PRESENT`, no address bits (bits 12..51). -/
 def LeafFlags4K (fl : Word) : Prop := fl &&& 1#64 = 1#64 ∧ fl &&& 0x000ffffffffff000#64 = 0#64
 /-- Leaf flags accepted for a huge page: contain `PRESENT`, no address bits (bits 13..51; bit 12 is PAT). -/
 def LeafFlagsHuge (fl : Word) : Prop := fl &&& 1#64 = 1#64 ∧ fl &&& 0x000fffffffffe000#64 = 0#64
+/-- Leaf flags for a 4 KiB page, `PRESENT` not required: no address bits (bits 12..51). -/
+def LeafBits4K (fl : Word) : Prop := fl &&& 0x000ffffffffff000#64 = 0#64
+/-- Leaf flags for a huge page, `PRESENT` not required: no address bits (bits 13..51). -/
+def LeafBitsHuge (fl : Word) : Prop := fl &&& 0x000fffffffffe000#64 = 0#64
 /-- Parent-table flags: contain `PRESENT`, not `HUGE_PAGE`, no address bits. -/
 def ParentFlags (fl : Word) : Prop :=
   fl &&& 1#64 = 1#64 ∧ fl &&& 0x80#64 = 0#64 ∧ fl &&& 0x000ffffffffff000#64 = 0#64
 
+/-- Leaf flags with `PRESENT` are in particular leaf flags. -/
+theorem leafBits_of_leafFlags {huge : Bool} {fl : Word}
+    (h : if huge then LeafFlagsHuge fl else LeafFlags4K fl) : if huge then LeafBitsHuge fl else LeafBits4K fl := by
+  cases huge
+  · exact h.2
+  · exact h.2
+
+theorem present_of_leafFlags {huge : Bool} {fl : Word}
+    (h : if huge then LeafFlagsHuge fl else LeafFlags4K fl) : fl &&& 1#64 = 1#64 := by
+  cases huge
+  · exact h.1
+  · exact h.1
+
 /-- The leaf flags a mapping of the given shape carries for requested flags `fl`. -/
 def leafFlagsOf (huge : Bool) (fl : Word) : Word := if huge then fl ||| 0x80#64 else fl
 
-private theorem upd4k_bits (e fl : Word) (h1 : fl &&& 1#64 = 1#64) (h2 : fl &&& 0x000ffffffffff000#64 = 0#64) :
-    bitP (Pte.setFlags e fl) = true ∧ tableAddr (Pte.setFlags e fl) = tableAddr e ∧
+/-- The frame a leaf entry `e` of a page of size `sz` names, as the MMU reads it (bits 51:12, 51:21 or
+51:30 of the entry). -/
+def entryFrame (sz : Nat) (e : Word) : Word :=
+  if sz = 4096 then tableAddr e else if sz = 2^21 then addr2M e else addr1G e
+
+/-- What the walk does with the entry in a page's slot (a level-1 entry, or a level-2/3 entry with the
+PS bit): a translation iff the entry is present. -/
+theorem entryStep_leaf {parents : List Nat} {huge : Bool} {sz : Nat} (sh : PageShape parents huge sz)
+    (m : PhysMem) (e : Word) (va : Nat) (rw us : Bool) (hh : huge = true → bitPS e = true) :
+    ∃ x : Xlat, entryStep m (4 - parents.length) e va rw us = (if bitP e = true then some x else none) ∧
+      x.base = (entryFrame sz e).toNat ∧ x.size = sz ∧ x.off = va % sz ∧
+      x.flags = (if huge then leafFlagsHuge e else leafFlags4K e) := by
+  cases sh with
+  | s4k a b c =>
+    refine ⟨leafXlat 1 e va rw us, ?_, ?_⟩
+    · unfold entryStep; cases hP : bitP e <;> simp
+    · simp [leafXlat, entryFrame]
+  | s2m a b =>
+    have hS := hh rfl
+    refine ⟨leafXlat 2 e va rw us, ?_, ?_⟩
+    · unfold entryStep; cases hP : bitP e <;> simp [hS]
+    · simp [leafXlat, entryFrame]
+  | s1g a =>
+    have hS := hh rfl
+    refine ⟨leafXlat 3 e va rw us, ?_, ?_⟩
+    · unfold entryStep; cases hP : bitP e <;> simp [hS]
+    · simp [leafXlat, entryFrame]
+
+private theorem upd4k_bits (e fl : Word) (h2 : fl &&& 0x000ffffffffff000#64 = 0#64) :
+    bitP (Pte.setFlags e fl) = bitP fl ∧ tableAddr (Pte.setFlags e fl) = tableAddr e ∧
     leafFlags4K (Pte.setFlags e fl) = fl := by
   unfold bitP tableAddr leafFlags4K Pte.setFlags Pte.addr Pte.ADDR_MASK
   unfold Word at *
   refine ⟨?_, ?_, ?_⟩ <;> bv_decide
 
-private theorem updHuge_bits (e fl : Word) (h1 : fl &&& 1#64 = 1#64) (h2 : fl &&& 0x000fffffffffe000#64 = 0#64) :
+private theorem updHuge_bits (e fl : Word) (h2 : fl &&& 0x000fffffffffe000#64 = 0#64) :
     let v := Pte.mk (Pte.hugeAddr e) (fl ||| Pte.HUGE)
-    bitP v = true ∧ bitPS v = true ∧ addr2M v = addr2M e ∧ addr1G v = addr1G e ∧
+    bitP v = bitP fl ∧ bitPS v = true ∧ addr2M v = addr2M e ∧ addr1G v = addr1G e ∧
     leafFlagsHuge v = fl ||| 0x80#64 ∧ Pte.huge v = true := by
   unfold bitP bitPS addr2M addr1G leafFlagsHuge Pte.mk Pte.hugeAddr Pte.huge Pte.HUGE
   unfold Word at *
   refine ⟨?_, ?_, ?_, ?_, ?_, ?_⟩ <;> bv_decide
 
-/-- **update_flags** (MappedPageTable / OffsetPageTable): on success every address of the page
-keeps frame, size and offset and gets exactly the new leaf flags; every other address keeps its
-translation; the invariant is kept. -/
+theorem bitP_of_present (fl : Word) (h : fl &&& 1#64 = 1#64) : bitP fl = true := by
+  unfold bitP; unfold Word at *; bv_decide
+
+theorem bitP_of_not_present (fl : Word) (h : fl &&& 1#64 = 0#64) : bitP fl = false := by
+  unfold bitP; unfold Word at *; bv_decide
+
+/-- **update_flags**, general form (MappedPageTable / OffsetPageTable; the requested flags need not
+contain `PRESENT`, and the page may have been mapped without `PRESENT`): on success the page's slot held
+a non-zero entry `e`; the hardware translated the page's addresses before iff `e` is present, and
+translates them afterwards iff the new flags contain `PRESENT` — to the frame `e` names, with the
+page's size and exactly the new leaf flags; every other address keeps its translation; the invariant
+is kept. -/
+theorem update_flags_spec (s : St) (p4 : Word) (parents : List Nat) (li : Nat) (huge : Bool) (sz : Nat)
+    (flags : Word) (sh : PageShape parents huge sz) (hinv : Inv s.mem p4) (hpi : IdxOK parents)
+    (hfl : if huge then LeafBitsHuge flags else LeafBits4K flags)
+    (h : (updateFlags ⟨false⟩ s p4 parents li huge flags).1 = .ok ()) :
+    ∃ t, tblAt s.mem p4 parents = some t ∧ s.mem t li ≠ 0#64 ∧
+    Inv (updateFlags ⟨false⟩ s p4 parents li huge flags).2.mem p4 ∧
+    (∀ va, parents ++ [li] <+: vaPath va →
+        (Pte.present (s.mem t li) = false → walk s.mem p4 va = none) ∧
+        (Pte.present (s.mem t li) = true → ∃ x, walk s.mem p4 va = some x ∧
+          x.base = (entryFrame sz (s.mem t li)).toNat ∧ x.size = sz ∧ x.off = va % sz) ∧
+        (flags &&& 1#64 = 0#64 →
+          walk (updateFlags ⟨false⟩ s p4 parents li huge flags).2.mem p4 va = none) ∧
+        (flags &&& 1#64 = 1#64 → ∃ x',
+          walk (updateFlags ⟨false⟩ s p4 parents li huge flags).2.mem p4 va = some x' ∧
+          x'.base = (entryFrame sz (s.mem t li)).toNat ∧ x'.size = sz ∧ x'.off = va % sz ∧
+          x'.flags = leafFlagsOf huge flags)) ∧
+    (∀ va, ¬ parents ++ [li] <+: vaPath va →
+        walk (updateFlags ⟨false⟩ s p4 parents li huge flags).2.mem p4 va = walk s.mem p4 va) ∧
+    (flags &&& 1#64 = 1#64 → AllPresent s.mem p4 →
+        AllPresent (updateFlags ⟨false⟩ s p4 parents li huge flags).2.mem p4) := by
+  have hm := updateFlags_mem s p4 parents li huge flags
+  rw [h] at hm
+  obtain ⟨t, ht, hused, hhuge, hmem⟩ := hm
+  obtain ⟨hl1, hl3⟩ := sh.len_le
+  have hne : s.mem t li ≠ 0#64 := by
+    intro h0; rw [h0] at hused; simp [Pte.isUnused] at hused
+  rw [hmem]
+  refine ⟨t, ht, hne, ?_⟩
+  -- the new word `v`: same frame, new flags, still a leaf of the page's shape
+  have hS : huge = true → bitPS (s.mem t li) = true := hhuge
+  generalize hv : (if huge = true then Pte.mk (Pte.hugeAddr (s.mem t li)) (flags ||| Pte.HUGE)
+      else Pte.setFlags (s.mem t li) flags) = v
+  have facts : bitP v = bitP flags ∧ (huge = true → bitPS v = true) ∧
+      entryFrame sz v = entryFrame sz (s.mem t li) ∧
+      (if huge then leafFlagsHuge v else leafFlags4K v) = leafFlagsOf huge flags ∧
+      (parents.length = 3 ∨ tableOf v = tableOf (s.mem t li)) ∧ DormantLeaf parents.length v := by
+    cases sh with
+    | s4k a b c =>
+      simp only [Bool.false_eq_true, if_false] at hfl hv
+      subst hv
+      obtain ⟨b1, b2, b3⟩ := upd4k_bits (s.mem t li) flags hfl
+      exact ⟨b1, (fun hc => by cases hc), by simp [entryFrame, b2], by simp [leafFlagsOf, b3],
+        Or.inl rfl, Or.inl rfl⟩
+    | s2m a b =>
+      simp only [if_true] at hfl hv
+      subst hv
+      obtain ⟨b1, b2, b3, b4, b5, b6⟩ := updHuge_bits (s.mem t li) flags hfl
+      refine ⟨b1, fun _ => b2, by simp [entryFrame, b3], by simp [leafFlagsOf, b5], Or.inr ?_,
+        Or.inr ⟨by simp, b6⟩⟩
+      unfold tableOf; rw [b6]; simp [show Pte.huge (s.mem t li) = true from hS rfl]
+    | s1g a =>
+      simp only [if_true] at hfl hv
+      subst hv
+      obtain ⟨b1, b2, b3, b4, b5, b6⟩ := updHuge_bits (s.mem t li) flags hfl
+      refine ⟨b1, fun _ => b2, by simp [entryFrame, b4], by simp [leafFlagsOf, b5], Or.inr ?_,
+        Or.inr ⟨by simp, b6⟩⟩
+      unfold tableOf; rw [b6]; simp [show Pte.huge (s.mem t li) = true from hS rfl]
+  obtain ⟨f1, f2, f3, f4, f5, f6⟩ := facts
+  refine ⟨?_, ?_, ?_, ?_⟩
+  · apply Inv_set' s.mem p4 hinv parents t li v ht hl3 hpi f5 (Or.inr (Or.inr f6))
+    intro hp; rw [hp] at hl1; simp at hl1
+  · intro va hva
+    obtain ⟨rw, us, h1, h2⟩ := walk_set_on s.mem p4 hinv.wf t li v va parents ht hl3 hva
+    obtain ⟨x, hx, xb, xs, xo, _⟩ := entryStep_leaf sh s.mem (s.mem t li) va rw us hS
+    obtain ⟨x', hx', xb', xs', xo', xf'⟩ := entryStep_leaf sh (s.mem.set t li v) v va rw us f2
+    rw [h1, h2, hx, hx', f1]
+    refine ⟨?_, ?_, ?_, ?_⟩
+    · intro hP
+      have : bitP (s.mem t li) = false := hP
+      simp [this]
+    · intro hP
+      have : bitP (s.mem t li) = true := hP
+      exact ⟨x, by simp [this], xb, xs, xo⟩
+    · intro hf; simp [bitP_of_not_present flags hf]
+    · intro hf
+      exact ⟨x', by simp [bitP_of_present flags hf], by rw [xb', f3], xs', xo', by rw [xf', f4]⟩
+  · intro va hva
+    exact walk_set_off s.mem p4 hinv.wf parents t li v ht hl3 hpi va hva
+  · intro hf hst
+    exact AllPresent_set s.mem p4 hinv.wf hst parents t li v ht hl3 hpi f5
+      (Or.inr (by rw [present_eq_bitP, f1]; exact bitP_of_present flags hf))
+
+/-- **update_flags** (MappedPageTable / OffsetPageTable) on a page the hardware currently translates
+(its entry, if any, is present — `hwas`; automatic when all mappings were made with `PRESENT`), with flags that
+contain `PRESENT`: on success every address of the page keeps frame, size and offset and gets exactly
+the new leaf flags; every other address keeps its translation; the invariant is kept.
+(`update_flags_spec` is the general form, for entries and flags with or without `PRESENT`.) -/
 theorem update_flags_ok (s : St) (p4 : Word) (parents : List Nat) (li : Nat) (huge : Bool) (sz : Nat)
     (flags : Word) (sh : PageShape parents huge sz) (hinv : Inv s.mem p4) (hpi : IdxOK parents) (hli : li < 512)
     (hfl : if huge then LeafFlagsHuge flags else LeafFlags4K flags)
+    (hwas : ∀ t, tblAt s.mem p4 parents = some t → s.mem t li ≠ 0#64 → Pte.present (s.mem t li) = true)
     (h : (updateFlags ⟨false⟩ s p4 parents li huge flags).1 = .ok ()) :
     Inv (updateFlags ⟨false⟩ s p4 parents li huge flags).2.mem p4 ∧
     (∀ va, parents ++ [li] <+: vaPath va →
@@ -125,64 +291,33 @@ theorem update_flags_ok (s : St) (p4 : Word) (parents : List Nat) (li : Nat) (hu
           x'.flags = leafFlagsOf huge flags) ∧
     (∀ va, ¬ parents ++ [li] <+: vaPath va →
         walk (updateFlags ⟨false⟩ s p4 parents li huge flags).2.mem p4 va = walk s.mem p4 va) := by
-  have hm := updateFlags_mem s p4 parents li huge flags
-  rw [h] at hm
-  obtain ⟨t, ht, hused, hhuge, hmem⟩ := hm
-  obtain ⟨hl1, hl3⟩ := sh.len_le
-  have hne : s.mem t li ≠ 0#64 := by
-    intro h0; rw [h0] at hused; simp [Pte.isUnused] at hused
-  have hP : bitP (s.mem t li) = true := hinv.pres parents t li hl3 hpi ht hli hne
-  rw [hmem]
-  cases sh with
-  | s4k a b c =>
-    simp only [Bool.false_eq_true, if_false] at hfl ⊢
-    obtain ⟨b1, b2, b3⟩ := upd4k_bits (s.mem t li) flags hfl.1 hfl.2
-    refine ⟨?_, ?_, ?_⟩
-    · exact Inv_set s.mem p4 hinv _ t li _ ht hl3 hpi (Or.inl rfl) (Or.inr b1) (fun hp => by cases hp)
-    · intro va hva
-      obtain ⟨rw, us, h1, h2⟩ := walk_set_on s.mem p4 hinv.wf t li (Pte.setFlags (s.mem t li) flags) va _ ht hl3 hva
-      refine ⟨leafXlat 1 (s.mem t li) va rw us, leafXlat 1 (Pte.setFlags (s.mem t li) flags) va rw us, ?_, ?_, ?_⟩
-      · rw [h1]; unfold entryStep; simp [hP]
-      · rw [h2]; unfold entryStep; simp [b1]
-      · simp [leafXlat, b2, b3, leafFlagsOf]
-    · intro va hva
-      exact walk_set_off s.mem p4 hinv.wf _ t li _ ht hl3 hpi va hva
-  | s2m a b =>
-    simp only [if_true] at hfl ⊢
-    obtain ⟨b1, b2, b3, b4, b5, b6⟩ := updHuge_bits (s.mem t li) flags hfl.1 hfl.2
-    have hS : bitPS (s.mem t li) = true := hhuge rfl
-    refine ⟨?_, ?_, ?_⟩
-    · apply Inv_set s.mem p4 hinv _ t li _ ht hl3 hpi _ (Or.inr b1) (fun hp => by cases hp)
-      right; unfold tableOf; rw [b6]; simp [show Pte.huge (s.mem t li) = true from hS]
-    · intro va hva
-      obtain ⟨rw, us, h1, h2⟩ := walk_set_on s.mem p4 hinv.wf t li (Pte.mk (Pte.hugeAddr (s.mem t li)) (flags ||| Pte.HUGE)) va _ ht hl3 hva
-      refine ⟨leafXlat 2 (s.mem t li) va rw us, leafXlat 2 (Pte.mk (Pte.hugeAddr (s.mem t li)) (flags ||| Pte.HUGE)) va rw us, ?_, ?_, ?_⟩
-      · rw [h1]; unfold entryStep; simp [hP, hS]
-      · rw [h2]; unfold entryStep; simp [b1, b2]
-      · simp [leafXlat, b3, b5, leafFlagsOf]
-    · intro va hva
-      exact walk_set_off s.mem p4 hinv.wf _ t li _ ht hl3 hpi va hva
-  | s1g a =>
-    simp only [if_true] at hfl ⊢
-    obtain ⟨b1, b2, b3, b4, b5, b6⟩ := updHuge_bits (s.mem t li) flags hfl.1 hfl.2
-    have hS : bitPS (s.mem t li) = true := hhuge rfl
-    refine ⟨?_, ?_, ?_⟩
-    · apply Inv_set s.mem p4 hinv _ t li _ ht hl3 hpi _ (Or.inr b1) (fun hp => by cases hp)
-      right; unfold tableOf; rw [b6]; simp [show Pte.huge (s.mem t li) = true from hS]
-    · intro va hva
-      obtain ⟨rw, us, h1, h2⟩ := walk_set_on s.mem p4 hinv.wf t li (Pte.mk (Pte.hugeAddr (s.mem t li)) (flags ||| Pte.HUGE)) va _ ht hl3 hva
-      refine ⟨leafXlat 3 (s.mem t li) va rw us, leafXlat 3 (Pte.mk (Pte.hugeAddr (s.mem t li)) (flags ||| Pte.HUGE)) va rw us, ?_, ?_, ?_⟩
-      · rw [h1]; unfold entryStep; simp [hP, hS]
-      · rw [h2]; unfold entryStep; simp [b1, b2]
-      · simp [leafXlat, b4, b5, leafFlagsOf]
-    · intro va hva
-      exact walk_set_off s.mem p4 hinv.wf _ t li _ ht hl3 hpi va hva
+  obtain ⟨t, ht, hne, hi', hon, hoff, _⟩ := update_flags_spec s p4 parents li huge sz flags sh hinv hpi
+    (leafBits_of_leafFlags hfl) h
+  refine ⟨hi', ?_, hoff⟩
+  intro va hva
+  obtain ⟨_, hold, _, hnew⟩ := hon va hva
+  obtain ⟨x, hx, xb, xs, xo⟩ := hold (hwas t ht hne)
+  obtain ⟨x', hx', xb', xs', xo', xf'⟩ := hnew (present_of_leafFlags hfl)
+  exact ⟨x, x', hx, hx', by rw [xb', xb], by rw [xs', xs], by rw [xo', xo], xs, xf'⟩
 
 theorem update_flags_err (s : St) (p4 : Word) (parents : List Nat) (li : Nat) (huge : Bool) (flags : Word)
     (e : OpErr) (h : (updateFlags ⟨false⟩ s p4 parents li huge flags).1 = .error e) :
     (updateFlags ⟨false⟩ s p4 parents li huge flags).2.mem = s.mem := by
   have hm := updateFlags_mem s p4 parents li huge flags
   rw [h] at hm; exact hm
+
+/-- `update_flags` with flags that contain `PRESENT` keeps "every non-zero entry is present". -/
+theorem update_flags_strict (s : St) (p4 : Word) (parents : List Nat) (li : Nat) (huge : Bool) (sz : Nat)
+    (flags : Word) (sh : PageShape parents huge sz) (hinv : Inv s.mem p4) (hpi : IdxOK parents)
+    (hfl : if huge then LeafFlagsHuge flags else LeafFlags4K flags) (hst : AllPresent s.mem p4) :
+    AllPresent (updateFlags ⟨false⟩ s p4 parents li huge flags).2.mem p4 := by
+  cases h : (updateFlags ⟨false⟩ s p4 parents li huge flags).1 with
+  | error e => rw [update_flags_err s p4 parents li huge flags e h]; exact hst
+  | ok u =>
+    cases u
+    obtain ⟨_, _, _, _, _, _, hstr⟩ := update_flags_spec s p4 parents li huge sz flags sh hinv hpi
+      (leafBits_of_leafFlags hfl) h
+    exact hstr (present_of_leafFlags hfl) hst
 
 private theorem parent_bits (e fl : Word) (h1 : fl &&& 1#64 = 1#64) (h2 : fl &&& 0x80#64 = 0#64)
     (h3 : fl &&& 0x000ffffffffff000#64 = 0#64) :
@@ -192,35 +327,40 @@ private theorem parent_bits (e fl : Word) (h1 : fl &&& 1#64 = 1#64) (h2 : fl &&&
   unfold Word at *
   refine ⟨?_, ?_, ?_⟩ <;> bv_decide
 
-/-- **set_flags_p4/p3/p2_entry** (MappedPageTable / OffsetPageTable): on success no address changes
-its mapping (frame, size, offset, leaf flags) — only effective rights can change —, and the
-invariant is kept. -/
-theorem set_parent_flags_ok (s : St) (p4 : Word) (parents : List Nat) (idx : Nat) (flags : Word)
+/-- **set_flags_p4/p3/p2_entry**, full form (MappedPageTable / OffsetPageTable): on success no address
+changes its mapping (frame, size, offset, leaf flags) — only effective rights can change —, the
+invariant is kept, and so is its strict variant "every non-zero entry is present". -/
+theorem set_parent_flags_full (s : St) (p4 : Word) (parents : List Nat) (idx : Nat) (flags : Word)
     (hlen : parents.length ≤ 2) (hinv : Inv s.mem p4) (hpi : IdxOK parents) (hidx : idx < 512)
     (hfl : ParentFlags flags)
     (h : (setParentFlags ⟨false⟩ s p4 parents idx flags).1 = .ok ()) :
     Inv (setParentFlags ⟨false⟩ s p4 parents idx flags).2.mem p4 ∧
-    ∀ va, (walk (setParentFlags ⟨false⟩ s p4 parents idx flags).2.mem p4 va).map Xlat.core =
-          (walk s.mem p4 va).map Xlat.core := by
+    (∀ va, (walk (setParentFlags ⟨false⟩ s p4 parents idx flags).2.mem p4 va).map Xlat.core =
+          (walk s.mem p4 va).map Xlat.core) ∧
+    (AllPresent s.mem p4 → AllPresent (setParentFlags ⟨false⟩ s p4 parents idx flags).2.mem p4) := by
   have hm := setParentFlags_mem s p4 parents idx flags
   rw [h] at hm
   obtain ⟨t, ht, hused, hnh, hmem⟩ := hm
   have hl3 : parents.length ≤ 3 := by omega
   have hne : s.mem t idx ≠ 0#64 := by
     intro h0; rw [h0] at hused; simp [Pte.isUnused] at hused
-  have hP : bitP (s.mem t idx) = true := hinv.pres parents t idx hl3 hpi ht hidx hne
   have hS : bitPS (s.mem t idx) = false := by
     cases hpe : parents with
     | nil =>
       rw [hpe] at ht; simp [tblAt] at ht; subst ht
       exact hinv.p4nh idx hidx
     | cons a l => exact hnh (by rw [hpe]; simp)
+  -- a non-zero, non-huge entry of a level-4/3/2 table is a table link: present
+  have hP : bitP (s.mem t idx) = true := hinv.present_of_not_huge parents t idx hlen hpi ht hidx hne hS
   obtain ⟨b1, b2, b3⟩ := parent_bits (s.mem t idx) flags hfl.1 hfl.2.1 hfl.2.2
   have hto : tableOf (Pte.setFlags (s.mem t idx) flags) = tableOf (s.mem t idx) := by
     rw [(tableOf_some_iff _ _).2 ⟨b1, b2, rfl⟩, (tableOf_some_iff _ _).2 ⟨hP, hS, rfl⟩, b3]
   rw [hmem]
-  refine ⟨?_, ?_⟩
+  refine ⟨?_, ?_, ?_⟩
   · exact Inv_set s.mem p4 hinv _ t idx _ ht hl3 hpi (Or.inr hto) (Or.inr b1) (fun _ => b2)
+  rotate_left
+  · intro hst
+    exact AllPresent_set s.mem p4 hinv.wf hst _ t idx _ ht hl3 hpi (Or.inr hto) (Or.inr b1)
   · intro va
     by_cases hva : parents ++ [idx] <+: vaPath va
     · obtain ⟨rw, us, h1, h2⟩ := walk_set_on s.mem p4 hinv.wf t idx (Pte.setFlags (s.mem t idx) flags) va _ ht hl3 hva
@@ -248,6 +388,19 @@ theorem set_parent_flags_ok (s : St) (p4 : Word) (parents : List Nat) (idx : Nat
         have : k + 2 - 1 = k + 1 := by omega
         rw [this, hbelow]; exact walkFrom_core _ _ _ _ _ _ _ _
     · rw [walk_set_off s.mem p4 hinv.wf _ t idx _ ht hl3 hpi va hva]
+
+/-- **set_flags_p4/p3/p2_entry** (MappedPageTable / OffsetPageTable): on success no address changes
+its mapping (frame, size, offset, leaf flags) — only effective rights can change —, and the
+invariant is kept. -/
+theorem set_parent_flags_ok (s : St) (p4 : Word) (parents : List Nat) (idx : Nat) (flags : Word)
+    (hlen : parents.length ≤ 2) (hinv : Inv s.mem p4) (hpi : IdxOK parents) (hidx : idx < 512)
+    (hfl : ParentFlags flags)
+    (h : (setParentFlags ⟨false⟩ s p4 parents idx flags).1 = .ok ()) :
+    Inv (setParentFlags ⟨false⟩ s p4 parents idx flags).2.mem p4 ∧
+    ∀ va, (walk (setParentFlags ⟨false⟩ s p4 parents idx flags).2.mem p4 va).map Xlat.core =
+          (walk s.mem p4 va).map Xlat.core :=
+  let ⟨h1, h2, _⟩ := set_parent_flags_full s p4 parents idx flags hlen hinv hpi hidx hfl h
+  ⟨h1, h2⟩
 
 theorem set_parent_flags_err (s : St) (p4 : Word) (parents : List Nat) (idx : Nat) (flags : Word)
     (e : OpErr) (h : (setParentFlags ⟨false⟩ s p4 parents idx flags).1 = .error e) :
